@@ -1133,7 +1133,9 @@ func (e *c13EpEnv) gocPlain(k int, d int) (*UdpEndpoint, bool, error) {
 	return e.pool.GetOrCreate(c13EpKey(k, false), &UdpEndpointOptions{
 		Ctx:        context.Background(),
 		Handler:    func(*UdpEndpoint, []byte, netip.AddrPort) error { return nil },
-		NatTimeout: 30 * time.Second,
+		// (these replays run on the real clock, outside a synctest bubble: a NAT timeout of a day keeps the
+		// janitor out of the picture however long the process is stalled)
+		NatTimeout: 24 * time.Hour,
 		GetDialOption: func(ctx context.Context) (*DialOption, error) {
 			return &DialOption{Target: c13Target, Dialer: e.dialers[d], Network: "udp"}, nil
 		},
@@ -1196,7 +1198,7 @@ func c13RunEpConcurrent(t *testing.T, stats *VStats) {
 						o = fmt.Sprintf("hit %d", e.id(r.ue))
 					}
 				}
-				s.Emit("ep goc 0 0 30000 - - 0 ok", o)
+				s.Emit("ep goc 0 0 86400000 - - 0 ok", o)
 			}
 			s.Emit("ep stx", e.digestNoTime(symOf))
 			stats.Inc(fmt.Sprintf("epc.firstPackets.n%d", n))
@@ -1210,7 +1212,7 @@ func c13RunEpConcurrent(t *testing.T, stats *VStats) {
 				t.Fatalf("c13: setup dial failed: %v", err)
 			}
 			s.Emit("ep reset", "ok")
-			s.Emit("ep goc 1 0 30000 - - 0 ok", fmt.Sprintf("new %d", e.id(ue1)))
+			s.Emit("ep goc 1 0 86400000 - - 0 ok", fmt.Sprintf("new %d", e.id(ue1)))
 			where := []string{"retire.afterMarkDead", "retire.afterSelfRemove"}[round%2]
 			g := &c13Gate{want: map[string]bool{where: true}, parked: make(chan *c13GatePark, 4)}
 			verifYieldHook = g.hook
@@ -1239,7 +1241,7 @@ func c13RunEpConcurrent(t *testing.T, stats *VStats) {
 			} else if err2 == nil {
 				o = fmt.Sprintf("hit %d", e.id(ue2))
 			}
-			s.Emit("ep goc 1 0 30000 - - 0 ok", o)
+			s.Emit("ep goc 1 0 86400000 - - 0 ok", o)
 			s.Emit("ep stx", e.digestNoTime(symOf))
 			stats.Inc("epc.retireVsRecreate." + where)
 			e.pool.Close()
